@@ -33,6 +33,8 @@ for sid in sys.argv[1:]:
     finally:
         sh(['git', '-C', '/repo', 'checkout', '--', '.'])
         sh(['git', '-C', '/repo', 'clean', '-fdq'])
+        # the evidence file this run wrote describes the PATCHED tree: put the committed one back
+        sh(['git', '-C', V, 'checkout', '--', f'evidence/{pid}.json'])
     m['full_mode'] = res
     json.dump(m, open(mp, 'w'), indent=1)
     print(sid, res.get('exit'), res.get('violation_line'), res.get('replay_kind'), res.get('broken'), flush=True)
